@@ -54,32 +54,70 @@ Proof.
 Qed.
 
 (* ------------------------------------------------------------------ run_ok *)
-Lemma run_ok_mono cap : forall l k k', run_ok cap k l = true -> k' <= k -> run_ok cap k' l = true.
+Definition vle (a b : option N) : Prop :=
+  match a, b with
+  | None, _ => True
+  | Some x, Some y => x <= y
+  | Some _, None => False
+  end.
+
+Definition step_dk (dk c : N) : N := if is_digit c then dk + 1 else 0.
+Definition step_vk (vk : option N) (c : N) : option N :=
+  match vk with Some k => Some (k + 1) | None => if c =? EQC then Some 0 else None end.
+Definition vk_lt (vk : option N) (vcap : N) : bool := match vk with Some k => k <? vcap | None => true end.
+
+Lemma run_ok_cons tcap vcap dk vk c r :
+  run_ok tcap vcap dk vk (c :: r) =
+  if c =? SOH then run_ok tcap vcap 0 None r
+  else (step_dk dk c <? tcap) && vk_lt (step_vk vk c) vcap && run_ok tcap vcap (step_dk dk c) (step_vk vk c) r.
+Proof. reflexivity. Qed.
+
+Lemma step_vk_mono vk vk' c : vle vk' vk -> vle (step_vk vk' c) (step_vk vk c).
 Proof.
-  induction l as [|c r IH]; intros k k' H Hk; [reflexivity|].
-  cbn [run_ok] in *. destruct (c =? SOH); [exact H|].
-  apply andb_true_iff in H. destruct H as [H1 H2]. apply N.ltb_lt in H1.
-  apply andb_true_iff. split; [apply N.ltb_lt; lia|]. apply (IH (k + 1)); [exact H2|lia].
+  unfold vle, step_vk. destruct vk' as [k'|], vk as [k|]; try tauto; intros H;
+    destruct (c =? EQC); try lia; exact I.
 Qed.
 
-Lemma run_ok_tail cap c r k : run_ok cap k (c :: r) = true -> run_ok cap 0 r = true.
+Lemma vk_lt_mono vk vk' vcap : vle vk' vk -> vk_lt vk vcap = true -> vk_lt vk' vcap = true.
 Proof.
-  cbn [run_ok]. destruct (c =? SOH); [auto|].
-  intros H. apply andb_true_iff in H. destruct H as [_ H]. apply (run_ok_mono cap r (k + 1)); [exact H|lia].
+  unfold vle, vk_lt. destruct vk' as [k'|], vk as [k|]; try tauto; intros H H1; try reflexivity.
+  apply N.ltb_lt in H1. apply N.ltb_lt. lia.
 Qed.
 
-Lemma run_ok_skip cap : forall l n, run_ok cap 0 l = true -> run_ok cap 0 (skipN n l) = true.
+Lemma run_ok_mono tcap vcap : forall l dk vk dk' vk',
+  run_ok tcap vcap dk vk l = true -> dk' <= dk -> vle vk' vk -> run_ok tcap vcap dk' vk' l = true.
+Proof.
+  induction l as [|c r IH]; intros dk vk dk' vk' H Hd Hv; [reflexivity|].
+  rewrite run_ok_cons in *. destruct (c =? SOH); [exact H|].
+  apply andb_true_iff in H. destruct H as [H H3]. apply andb_true_iff in H. destruct H as [H1 H2].
+  apply N.ltb_lt in H1.
+  assert (Hs : step_dk dk' c <= step_dk dk c) by (unfold step_dk; destruct (is_digit c); lia).
+  pose proof (step_vk_mono vk vk' c Hv) as Hv'.
+  apply andb_true_iff. split; [apply andb_true_iff; split|].
+  - apply N.ltb_lt. lia.
+  - exact (vk_lt_mono _ _ _ Hv' H2).
+  - exact (IH _ _ _ _ H3 Hs Hv').
+Qed.
+
+Lemma run_ok_tail tcap vcap c r dk vk : run_ok tcap vcap dk vk (c :: r) = true -> run_ok tcap vcap 0 None r = true.
+Proof.
+  rewrite run_ok_cons. destruct (c =? SOH); [auto|].
+  intros H. apply andb_true_iff in H. destruct H as [_ H].
+  apply (run_ok_mono tcap vcap r _ _ 0 None H); [lia|exact I].
+Qed.
+
+Lemma run_ok_skip tcap vcap : forall l n, run_ok tcap vcap 0 None l = true -> run_ok tcap vcap 0 None (skipN n l) = true.
 Proof.
   induction l as [|c r IH]; intros n H; [reflexivity|].
   destruct (N.eq_dec n 0) as [->|Hn]; [rewrite skipN_0; exact H|].
-  rewrite skipN_cons_pos by lia. apply IH. exact (run_ok_tail cap c r 0 H).
+  rewrite skipN_cons_pos by lia. apply IH. exact (run_ok_tail _ _ c r 0 None H).
 Qed.
 
-Lemma run_ok_step cap c r k : run_ok cap k (c :: r) = true -> (c =? SOH) = false ->
-  k + 1 < cap /\ run_ok cap (k + 1) r = true.
+Lemma run_ok_step tcap vcap c r dk vk : run_ok tcap vcap dk vk (c :: r) = true -> (c =? SOH) = false ->
+  step_dk dk c < tcap /\ vk_lt (step_vk vk c) vcap = true /\ run_ok tcap vcap (step_dk dk c) (step_vk vk c) r = true.
 Proof.
-  cbn [run_ok]. intros H E. rewrite E in H. apply andb_true_iff in H. destruct H as [H1 H2].
-  apply N.ltb_lt in H1. auto.
+  rewrite run_ok_cons. intros H E. rewrite E in H. apply andb_true_iff in H. destruct H as [H H3].
+  apply andb_true_iff in H. destruct H as [H1 H2]. apply N.ltb_lt in H1. auto.
 Qed.
 
 Lemma digit_not_soh c : is_digit c = true -> (c =? SOH) = false.
@@ -90,6 +128,11 @@ Qed.
 
 Lemma eqc_not_soh c : (c =? EQC) = true -> (c =? SOH) = false.
 Proof. unfold EQC, SOH. intros H. apply N.eqb_eq in H. apply N.eqb_neq. lia. Qed.
+
+Lemma eqc_not_digit c : (c =? EQC) = true -> is_digit c = false.
+Proof.
+  unfold EQC, is_digit. intros H. apply N.eqb_eq in H. subst c. reflexivity.
+Qed.
 
 (* ------------------------------------------------------------------ extract_element *)
 Lemma zero_write_ok nt nv tcap vcap k : nt < tcap -> nv < vcap -> zero_write nt nv tcap vcap k = k.
@@ -109,51 +152,67 @@ Proof.
   destruct (negb (nv <? vcap)); [discriminate|]. intros H. injection H. auto.
 Qed.
 
-Section XeSafe.
-Variables cap tcap vcap : N.
-Hypothesis Ht : cap <= tcap.
-Hypothesis Hv : cap <= vcap.
+(* the value-phase invariant: our value started at or after the first '=' of the segment *)
+Definition val_inv (inval : bool) (vk : option N) (nv vcap : N) : Prop :=
+  if inval then exists k, vk = Some k /\ nv <= k /\ k < vcap else nv = 0.
 
-Lemma xe_safe : forall from sz ii inval tag val nt nv k,
-  run_ok cap k from = true -> k < cap -> nt <= k -> nv <= k -> sz <= ii + lenN from ->
+Section XeSafe.
+Variables tc vc tcap vcap : N.
+Hypothesis Ht : tc <= tcap.
+Hypothesis Hv : vc <= vcap.
+Hypothesis Hv0 : 0 < vc.
+
+Lemma xe_safe : forall from sz ii (inval : bool) tag val nt nv dk vk,
+  run_ok tc vc dk vk from = true -> dk < tc -> (if inval then nt < tc else nt <= dk) ->
+  val_inv inval vk nv vc -> sz <= ii + lenN from ->
   forall s, xe_loop from sz ii inval tag val nt nv tcap vcap <> XOOB s.
 Proof.
-  induction from as [|c rest IH]; intros sz ii inval tag val nt nv k Hr Hk Hnt Hnv Hsz s.
-  - cbn [xe_loop]. destruct (ii <? sz) eqn:E.
+  induction from as [|c rest IH]; intros sz ii inval tag val nt nv dk vk Hr Hk Hnt Hnv Hsz s.
+  - assert (nv < vcap) by (destruct inval; cbn in Hnv; [destruct Hnv as (k & _ & ? & ?)|]; lia).
+    assert (nt < tcap) by (destruct inval; lia).
+    cbn [xe_loop]. destruct (ii <? sz) eqn:E.
     + apply N.ltb_lt in E. cbn in Hsz. lia.
     + rewrite zero_write_ok by lia. discriminate.
-  - cbn [xe_loop]. destruct (ii <? sz) eqn:E; [|rewrite zero_write_ok by lia; discriminate].
+  - assert (Hnvc : nv < vcap) by (destruct inval; cbn in Hnv; [destruct Hnv as (k & _ & ? & ?)|]; lia).
+    assert (Hntc : nt < tcap) by (destruct inval; lia).
+    cbn [xe_loop]. destruct (ii <? sz) eqn:E; [|rewrite zero_write_ok by lia; discriminate].
     rewrite lenN_cons in Hsz.
     destruct inval.
     + destruct (c =? SOH) eqn:Es; [rewrite zero_write_ok by lia; discriminate|].
-      destruct (run_ok_step _ _ _ _ Hr Es) as [Hk1 Hr1].
+      destruct (run_ok_step _ _ _ _ _ _ Hr Es) as (Hk1 & Hv1 & Hr1).
       destruct (nv <? vcap) eqn:En; [|apply N.ltb_ge in En; lia].
-      apply (IH _ _ _ _ _ _ _ (k + 1)); try assumption; lia.
+      destruct Hnv as (k & -> & Hnk & Hkv). cbn [step_vk vk_lt] in Hv1, Hr1. apply N.ltb_lt in Hv1.
+      apply (IH _ _ true _ _ _ _ (step_dk dk c) (Some (k + 1))); try assumption; try lia.
+      exists (k + 1). repeat split; lia.
     + destruct (is_digit c) eqn:Ed.
-      * destruct (run_ok_step _ _ _ _ Hr (digit_not_soh _ Ed)) as [Hk1 Hr1].
+      * destruct (run_ok_step _ _ _ _ _ _ Hr (digit_not_soh _ Ed)) as (Hk1 & Hv1 & Hr1).
+        unfold step_dk in Hk1, Hr1. rewrite Ed in Hk1, Hr1.
         destruct (nt <? tcap) eqn:En; [|apply N.ltb_ge in En; lia].
-        apply (IH _ _ _ _ _ _ _ (k + 1)); try assumption; lia.
+        apply (IH _ _ false _ _ _ _ (dk + 1) (step_vk vk c)); try assumption; try lia.
       * destruct (c =? EQC) eqn:Ee; [|rewrite zero_write_ok by lia; discriminate].
-        destruct (run_ok_step _ _ _ _ Hr (eqc_not_soh _ Ee)) as [Hk1 Hr1].
-        apply (IH _ _ _ _ _ _ _ (k + 1)); try assumption; lia.
+        destruct (run_ok_step _ _ _ _ _ _ Hr (eqc_not_soh _ Ee)) as (Hk1 & Hv1 & Hr1).
+        apply (IH _ _ true _ _ _ _ (step_dk dk c) (step_vk vk c)); try assumption; try lia.
+        cbn in Hnv. subst nv. unfold step_vk in *. rewrite Ee in *.
+        destruct vk as [k|]; cbn [vk_lt] in Hv1; apply N.ltb_lt in Hv1; eexists; repeat split; lia.
 Qed.
 
 End XeSafe.
 
-Lemma xfw_safe cap tcap vcap val_sz : cap <= tcap -> val_sz < vcap -> forall from sz ii tag nt k,
-  run_ok cap k from = true -> k < cap -> nt <= k -> sz <= ii + lenN from ->
+Lemma xfw_safe tc vc tcap vcap val_sz : tc <= tcap -> val_sz < vcap -> forall from sz ii tag nt dk vk,
+  run_ok tc vc dk vk from = true -> dk < tc -> nt <= dk -> sz <= ii + lenN from ->
   forall s, xfw_loop from sz ii val_sz tag nt tcap vcap <> XOOB s.
 Proof.
-  intros Ht Hvs. induction from as [|c rest IH]; intros sz ii tag nt k Hr Hk Hnt Hsz s.
+  intros Ht Hvs. induction from as [|c rest IH]; intros sz ii tag nt dk vk Hr Hk Hnt Hsz s.
   - cbn [xfw_loop]. destruct (ii <? sz) eqn:E.
     + apply N.ltb_lt in E. cbn in Hsz. lia.
     + rewrite zero_write_ok by lia. discriminate.
   - cbn [xfw_loop]. destruct (ii <? sz) eqn:E; [|rewrite zero_write_ok by lia; discriminate].
     rewrite lenN_cons in Hsz.
     destruct (is_digit c) eqn:Ed.
-    + destruct (run_ok_step _ _ _ _ Hr (digit_not_soh _ Ed)) as [Hk1 Hr1].
+    + destruct (run_ok_step _ _ _ _ _ _ Hr (digit_not_soh _ Ed)) as (Hk1 & Hv1 & Hr1).
+      unfold step_dk in Hk1, Hr1. rewrite Ed in Hk1, Hr1.
       destruct (nt <? tcap) eqn:En; [|apply N.ltb_ge in En; lia].
-      apply (IH _ _ _ _ (k + 1)); try assumption; lia.
+      apply (IH _ _ _ _ (dk + 1) (step_vk vk c)); try assumption; lia.
     + destruct (negb (c =? EQC) || (sz <? ii + 1 + val_sz)) eqn:Eb; [rewrite zero_write_ok by lia; discriminate|].
       apply orb_false_iff in Eb. destruct Eb as [_ Eb]. apply N.ltb_ge in Eb.
       destruct (val_sz <? vcap) eqn:Ev; [|apply N.ltb_ge in Ev; lia]. cbn [negb].
@@ -182,22 +241,23 @@ Lemma extract_element_ok from sz tcap vcap t v r :
   extract_element from sz tcap vcap = XOk t v r -> 2 <= r /\ r <= lenN from /\ r <= sz.
 Proof. unfold extract_element. intros H. apply xe_consumed in H. cbn beta iota in H. lia. Qed.
 
-Lemma extract_element_safe cap tcap vcap from sz :
-  cap <= tcap -> cap <= vcap -> 0 < cap -> run_ok cap 0 from = true -> sz <= lenN from ->
+Lemma extract_element_safe tc vc tcap vcap from sz :
+  tc <= tcap -> vc <= vcap -> 0 < tc -> 0 < vc -> run_ok tc vc 0 None from = true -> sz <= lenN from ->
   forall s, extract_element from sz tcap vcap <> XOOB s.
 Proof.
-  intros Ht Hv H0 Hr Hsz. unfold extract_element.
-  apply (xe_safe cap tcap vcap Ht Hv from sz 0 false [] [] 0 0 0); try assumption; lia.
+  intros Ht Hv H0 Hv0 Hr Hsz. unfold extract_element.
+  apply (xe_safe tc vc tcap vcap Ht Hv Hv0 from sz 0 false [] [] 0 0 0 None); try assumption; try lia.
+  reflexivity.
 Qed.
 
-Lemma extract_fw_safe cap tcap vcap from sz val_sz :
-  cap <= tcap -> val_sz < vcap -> 0 < cap -> run_ok cap 0 from = true -> sz <= lenN from ->
+Lemma extract_fw_safe tc vc tcap vcap from sz val_sz :
+  tc <= tcap -> val_sz < vcap -> 0 < tc -> run_ok tc vc 0 None from = true -> sz <= lenN from ->
   forall s, extract_element_fixed_width from sz val_sz tcap vcap <> XOOB s.
 Proof.
   intros Ht Hv H0 Hr Hsz s. unfold extract_element_fixed_width.
   destruct (0 <? tcap) eqn:E1; [|apply N.ltb_ge in E1; lia].
   destruct (0 <? vcap) eqn:E2; [|apply N.ltb_ge in E2; lia]. cbn [andb].
-  apply (xfw_safe cap tcap vcap val_sz Ht Hv from sz 0 [] 0 0); try assumption; lia.
+  apply (xfw_safe tc vc tcap vcap val_sz Ht Hv from sz 0 [] 0 0 None); try assumption; lia.
 Qed.
 
 (* ------------------------------------------------------------------ one header token *)
